@@ -73,7 +73,14 @@ impl<'a> PrettyPrinter<'a> {
         }
 
         let import_items_doc = self.convert_import_items(ctx, import_items_nodes);
-        prefix_doc + self.arena.space() + import_items_doc
+        // The line break after a trailing line comment went away with the trailing space of the prefix.
+        let sep = if (prefix_part.last()).is_some_and(|node| node.kind() == SyntaxKind::LineComment)
+        {
+            self.arena.hardline()
+        } else {
+            self.arena.space()
+        };
+        prefix_doc + sep + import_items_doc
     }
 
     fn convert_import_items(
